@@ -92,10 +92,12 @@ Section C13_C02.
   (* ... tied to the source: the evaluator model identifies a declaration's hash with the
      declaration (Model/Decl.v wf_b: v_hash = pub_of d).  That is a fact about
      validate.go computeDeclHash - the hash table is keyed by the declaration's FULL encoding -
-     which is re-extracted from the source on every run (Gen/DeclHash.v).  A change that keys the
-     table by anything coarser (a digest, a prefix) makes the first conjunct unprovable. *)
+     which is re-extracted from the source on every run (Gen/DeclHash.v), together with the fact
+     that the id stored for a new encoding is fresh (uuid / counter).  A change that keys the
+     table by anything coarser, or derives the id from a digest of the encoding, makes the first
+     conjunct unprovable. *)
   Theorem caches_invisible_c02_src :
-    decl_hash_key_is_full_encoding = true /\
+    decl_hash_injective = true /\
     forall h h' s ctx us, Inv0 h -> Inv0 h' -> run_env_c02 h s ctx us = run_env_c02 h' s ctx us.
   Proof.
     exact (conj (eq_refl true)
@@ -105,6 +107,11 @@ End C13_C02.
 
 (* the extracted source fact on its own *)
 Theorem decl_hash_key_full : decl_hash_key_is_full_encoding = true.
+Proof. reflexivity. Qed.
+
+(* ... and the id stored for a new encoding comes from a source that never repeats within a schema
+   (uuid / counter), not from a digest of the encoding: equal hashes <=> equal encodings *)
+Theorem decl_hash_ids_injective : decl_hash_injective = true.
 Proof. reflexivity. Qed.
 
 (* Node pool facts the proof rests on (the pipeline-level counterpart of C12's fresh_blank /
